@@ -16,9 +16,16 @@ import (
 // (allocWorker) are run with an arbitrary valid pool.
 // zz:noreplay the goroutine is run by the engine after the receiver was declared gone (zz.NoReceiver); natively the outcome depends on the scheduler
 func ZZ_C04_caller_gone() {
-	n6 := zz.Fork("n6", 2)
+	// the pool's families: IPv4 only, dual stack, IPv6 only
+	n4, n6 := 2, 0
+	switch zz.Fork("stack", 3) {
+	case 1:
+		n6 = 1
+	case 2:
+		n4, n6 = 0, 2
+	}
 	f := zzNewFactory(false)
-	l, slots := zzPool(2, n6, f)
+	l, slots := zzPool(n4, n6, f)
 	zz.Assume(zzInv(slots))
 	me := zzPods[0]
 	before4, before6 := zzOwned(slots, me, false), zzOwned(slots, me, true)
